@@ -293,6 +293,8 @@ class Judge:
         self.first = {}      # tid -> (label, raw trace)
         self.mult = {}       # tid -> count
         self.n = 0
+        self.pending = []    # (tid, drift message) of executions outside the spec's behaviours
+        self.hit = set()
 
     def add(self, label, tr):
         self.n += 1
@@ -340,9 +342,12 @@ class Judge:
                 verdicts.update(got)
         shutil.rmtree(d, ignore_errors=True)
         nviol = ndrift = 0
+        self.hit = {tid for tid in verdicts if verdicts[tid][2]}
         for tid in sorted(verdicts):
             _, _, bad, shape = verdicts[tid]
             label, tr = self.first[tid]
+            if bad:
+                shape = ()      # a deviation that breaks the property is a violation, not drift
             for (clause, a, b, l) in sorted(bad, key=lambda x: (x[3], str(x[0]), x[1], x[2])):
                 nviol += 1
                 sig, what = classify(tr, str(clause), a, b, l)
@@ -351,6 +356,10 @@ class Judge:
                 ndrift += 1
                 ctx.drift_event(f"{label}: {cl} push={a} cmd={b}: real step differs from the RecvPack step under {self.flags}; "
                                 f"push={json.dumps(tr['push'][a - 1])} refs0={tr['refs0']} ev={json.dumps([e for e in tr['ev'] if e['p'] == a])[:600]}")
+        for tid, msg in self.pending:
+            if tid not in self.hit:
+                ndrift += 1
+                ctx.drift_event(msg)
         ctx.validated(self.n)
         ctx.log(f"TLC judged {len(self.uniq)} distinct traces of {self.n} real executions: {nviol} property-clause hits, {ndrift} shape deviations")
 
@@ -474,11 +483,15 @@ def replay_space(ctx, judge, label, behs, *, race=False, opts=None):
     opts = opts or {}
     model = {}
     cases = {}
+    keep = opts.get("filter")
     for b in behs:
         case = L.case_of_behaviour(b)
+        if keep is not None and not keep(case):
+            continue
         k = case_key(case)
-        cases[k] = case
+        cases[k] = {**case, **opts.get("case_extra", {})}
         model.setdefault(k, set()).add(L.project_model(b))
+    opts = {k: v for k, v in opts.items() if k not in ("filter", "case_extra")}
     items = [(k, cases[k], opts) for k in sorted(cases)]
     res = pool_run(ctx, "race" if race else "seq", items, chunk=6 if race else 50)
     if not race:
@@ -490,18 +503,16 @@ def replay_space(ctx, judge, label, behs, *, race=False, opts=None):
         pr = L.project_real(tr)
         real.setdefault(k, {})[pr] = tr
         tr["label"] = label
-        judge.add(label, tr)
+        tr["_tid"] = judge.add(label, tr)
         ctx.nontrivial((label, k, pr))
     nbad = 0
     for k in sorted(cases):
         m, r = model[k], real.get(k, {})
         for pr in sorted(set(r) - m, key=repr):
             nbad += 1
-            if nbad <= 5:
-                ctx.drift_event(f"{label}: the real code behaves in a way RecvPack does not allow for this case: case={k} real={pr} "
-                                f"spec={sorted(m, key=repr)[:3]}")
-            else:
-                ctx.cov["drift"] += 1
+            # drift only if the property held on that execution (decided once TLC has judged it)
+            judge.pending.append((r[pr]["_tid"], f"{label}: the real code behaves in a way RecvPack does not allow for this case: "
+                                                 f"case={k} real={pr} spec={sorted(m, key=repr)[:3]}"))
         for pm in sorted(m - set(r), key=repr):
             nbad += 1
             if nbad <= 5:
@@ -509,7 +520,7 @@ def replay_space(ctx, judge, label, behs, *, race=False, opts=None):
                                 f"spec={pm} real={sorted(r, key=repr)[:3]}")
             else:
                 ctx.cov["drift"] += 1
-    ctx.log(f"{label}: {len(behs)} behaviours of {len(cases)} cases from TLC, {nexec} real executions, {nbad} mismatches")
+    ctx.log(f"{label}: {sum(len(m) for m in model.values())} behaviours of {len(cases)} cases from TLC, {nexec} real executions, {nbad} mismatches")
     if res:
         k, tr = res[len(res) // 2]
         ctx.sample({"kind": label, "case": json.loads(k), "real": repr(L.project_real(tr)), "spec": repr(sorted(model[k], key=repr)[:2])}, limit=8)
@@ -532,6 +543,18 @@ def run(ctx):
     replay_space(ctx, judge, "local-seq", behs["local-seq"])
     replay_space(ctx, judge, "wire-race", behs["wire-race"], race=True, opts={"maxp": ctx.pick(3, 4)})
     replay_space(ctx, judge, "local-race", behs["local-race"], race=True, opts={"maxp": ctx.pick(3, 4)})
+    # the same racing behaviours with the contended ref packed-only / loose + packed, and one more scheduling point
+    # inside every ref operation: the acquisition of <ref>.lock (between the operation's reads of packed-refs and
+    # its compare-and-write under the lock).  The value "before" is then the one read when the lock is held.
+
+    def contended(case):
+        p1, p2 = case["push"]
+        return (case["refs0"][0] != 0 and any(c["r"] == 1 for c in p1["cmds"])
+                and (not ctx.quick or p2["cmds"][0]["old"] == case["refs0"][0]))
+    for layout in ("packed", "both"):
+        replay_space(ctx, judge, f"wire-race-{layout}", behs["wire-race"], race=True,
+                     opts={"maxp": ctx.pick(2, 3), "limit": ctx.pick(80, 600), "filter": contended,
+                           "case_extra": {"layout": layout, "lockyield": True}})
 
     # S: three real pushes (two receive-pack handlers and a local push) on the same two refs, every schedule with a
     # bounded number of preemptions at ref-operation grain; judged by the monitor only
@@ -571,7 +594,7 @@ def run(ctx):
                        "case has at least one ref command, i.e. exercises the antecedent of the property")
     ctx.assumptions += [
         "values are fixture commits; `has the object` means the commit named by a ref is in the server's object store (closure completeness is C05)",
-        "two or three pushers interleave at ref-operation grain (start of a push, client callbacks, every set_if_equals/remove_if_equals); system-call grain of the ref files is C08",
+        "two or three pushers interleave at ref-operation grain (start of a push, client callbacks, every set_if_equals/remove_if_equals; in the packed / loose+packed race spaces also the acquisition of <ref>.lock inside the operation, from which point the operation runs as one step); finer system-call grain of the ref files is C08",
         "a push whose connection breaks (handler exception) tells the client nothing and is judged only by NoDanglingRef/Atomic",
         "ref value before/after an operation is read from the loose file / packed-refs directly, object membership through a fresh DiskObjectStore",
         f"design parameters of RecvPack taken from probe pushes on the code under test: {flags}",
@@ -584,7 +607,8 @@ def replay(ctx, path):
     tr0 = obj["trace"]
     print(json.dumps({k: v for k, v in obj.items() if k != "trace"}, indent=1))
     tpl = _tpl(ctx.scratch)
-    case = {"refs0": tr0["refs0"], "store0": tr0["store0"], "push": tr0["push"], "layout": tr0.get("layout", "loose")}
+    case = {"refs0": tr0["refs0"], "store0": tr0["store0"], "push": tr0["push"], "layout": tr0.get("layout", "loose"),
+            "lockyield": tr0.get("lockyield", False)}
     if tr0.get("via") in ("git", "dulwich"):
         from .. import c06_git
         tr = c06_git.rerun(ctx, tpl, tr0)
